@@ -34,7 +34,9 @@ ALLOWED_I64_OPS = {
         'shift-back comparison is the overflow test itself',
 }
 FORBIDDEN_I64_CALLS = re.compile(r'^core::num::<impl i64>::(wrapping_|overflowing_|saturating_|unchecked_|pow$|abs$|'
-                                 r'unsigned_abs$|rotate_|isqrt$|strict_)')
+                                 r'unsigned_abs$|rotate_|isqrt$|strict_)|'
+                                 r'^core::num::<impl [iu](8|16|32|64|128|size)>::(wrapping_|overflowing_|saturating_|unchecked_)')
+INT_TYPES = ('i8', 'u8', 'i16', 'u16', 'i32', 'u32', 'u64', 'i128', 'u128', 'usize', 'isize')
 CHECKED = re.compile(r'^core::num::<impl i64>::checked_')
 
 
@@ -51,6 +53,33 @@ def _is_shl_filter_closure(F, body):
         clo = du.origin(t['a'][1]) if len(t['a']) > 1 else {'k': '?'}
         if src is not None and Q.callee_is(src, ['core::num::<impl i64>::checked_shl']) and \
                 clo['k'] == 'agg' and clo['rv'].get('def') == body.fn:
+            return True
+    return False
+
+
+OPTION_ADAPTERS = [re.compile(r'^core::option::Option::<T>::(and_then|or_else|map|filter|then|then_some|and|or|xor|flatten)$'),
+                   re.compile(r'^core::bool::<impl bool>::then$')]
+
+
+def _closure_result_sunk(F, body, depth=3):
+    """`body` is a closure whose returned Option is the result of a checked_* call; it is passed to an Option adapter
+    (and_then, map, ..) in its parent, and the adapter's result reaches unwrap_or_overflow there (or is, in turn, returned
+    by a helper / closure whose result is sunk)."""
+    if '::{closure' not in body.fn or depth == 0:
+        return False
+    parent = F.bodies.get(body.fn.rsplit('::{closure', 1)[0])
+    if parent is None:
+        return False
+    du = Q.DefUse(parent)
+    for blk, t in parent.calls():
+        if not Q.callee_is(t, OPTION_ADAPTERS):
+            continue
+        if not any(du.origin(a).get('k') == 'agg' and du.origin(a)['rv'].get('def') == body.fn for a in t['a']):
+            continue
+        taint = Q.forward_taint(parent, {t['dest']['l']}, through_calls=OPTION_ADAPTERS + Q.PROPAGATING_CALLS)
+        if Q.calls_with_tainted_arg(parent, [EVAL + 'unwrap_or_overflow'], taint):
+            return True
+        if 0 in taint and (_callers_sink_result(F, parent.root) or _closure_result_sunk(F, parent, depth - 1)):
             return True
     return False
 
@@ -92,6 +121,10 @@ def r1(cx):
             if rv['k'] == 'unop' and rv['ta'] == 'i64' and rv['op'] == 'Neg':
                 cx.site('%s: Neg on i64 at %s' % (body.fn, body.loc(s)))
                 cx.violation(body.fn, 'i64:Neg', 'unchecked negation of an i64 value', loc=body.loc(s))
+            if rv['k'] == 'cast' and rv['to'] == 'i64' and rv['from'] in ('u64', 'i128', 'u128', 'usize', 'isize'):
+                cx.site('%s: cast %s -> i64 at %s' % (body.fn, rv['from'], body.loc(s)))
+                cx.violation(body.fn, 'i64:cast-from:%s' % rv['from'], 'an `as i64` cast from %s wraps out-of-range values instead of '
+                             'reporting them (e.g. a magnitude above 2^63 becomes a value of the wrong sign)' % rv['from'], loc=body.loc(s))
             if rv['k'] == 'cast' and rv['from'] == 'i64' and rv['to'] in ('i32', 'u32', 'i16', 'u16', 'i8', 'u8', 'usize', 'isize', 'u64'):
                 cx.site('%s: cast i64 -> %s at %s' % (body.fn, rv['to'], body.loc(s)))
                 cx.violation(body.fn, 'i64:cast:%s' % rv['to'], 'truncating/sign-changing cast of an i64 value', loc=body.loc(s))
@@ -111,12 +144,14 @@ def r1(cx):
                 continue
             n_checked += 1
             cx.site('%s: %s at %s' % (body.fn, pp.callee(t), body.loc(t)))
-            taint = Q.forward_taint(body, {t['dest']['l']}, through_calls=['core::option::Option::<T>::filter'] + Q.PROPAGATING_CALLS)
+            taint = Q.forward_taint(body, {t['dest']['l']}, through_calls=OPTION_ADAPTERS + Q.PROPAGATING_CALLS)
             sinks = Q.calls_with_tainted_arg(body, [EVAL + 'unwrap_or_overflow'], taint)
             if sinks:
                 continue
             if 0 in taint and _callers_sink_result(F, body.root):
                 continue          # a helper that hands the Option to its caller, which gives it to unwrap_or_overflow
+            if 0 in taint and _closure_result_sunk(F, body):
+                continue          # a closure given to Option::and_then / map / or_else whose result is sunk by the parent
             # match on the Option with a None arm constructing EvalError::Overflow
             ok = False
             for sb in body.live_blocks():
@@ -493,8 +528,8 @@ def r6(cx):
                      loc=body.loc(body.d))
 
 
-PARSERS = [re.compile(r'^core::num::<impl i64>::from_str_radix$'), re.compile(r'^<i64 as core::str::traits::FromStr>::from_str$'),
-           re.compile(r'^core::num::<impl i64>::from_ascii')]
+PARSERS = [re.compile(r'^core::num::<impl [iu](64|128)>::from_str_radix$'), re.compile(r'^<[iu](64|128) as core::str::traits::FromStr>::from_str$'),
+           re.compile(r'^core::num::<impl [iu](64|128)>::from_ascii')]
 THE_PARSER = 'yash_arith::token::parse_integer_constant'
 
 
@@ -505,7 +540,7 @@ def r7(cx):
     for body in F.bodies_in(['yash_arith::']):
         for b, t in body.calls():
             hit = any(p.search(n) for n in Q.callee_names(t) for p in PARSERS)
-            if not hit and Q.callee_is(t, ['core::str::<impl str>::parse']) and 'i64' in (t['f'].get('ga') or ''):
+            if not hit and Q.callee_is(t, ['core::str::<impl str>::parse']) and re.search(r'\b[iu](64|128)\b', t['f'].get('ga') or ''):
                 hit = True
             if hit:
                 users.setdefault(body.root, []).append((body, t))
@@ -728,3 +763,35 @@ def r10(cx):
         cx.violation(roots[0], 'raw-variable-read', 'arithmetic expansion reads the stored value of a variable (VariableSet::get_scalar, which '
                      'applies no quirk) while $x goes through Variable::expand: for a variable whose value is computed on expansion '
                      '($LINENO) `$((LINENO))` is 0 and `$(($LINENO))` is the line number - they must agree', loc=b0.loc(raw[0][1]) if raw else b0.loc(b0.d))
+
+
+
+@RS.rule('C03.R1b', 'K-PASS', 'left shift: i64::checked_shl only checks the shift count, so its result passes the overflow filter '
+         '(sign and shifted-back comparison) before it is used')
+def r1b(cx):
+    F = cx.F
+    n = 0
+    for body in F.bodies_in(['yash_arith::eval::']):
+        du = Q.DefUse(body)
+        for b, t in Q.find_calls(body, ['core::num::<impl i64>::checked_shl']):
+            n += 1
+            cx.fn(body.fn)
+            users = [(ub, ut) for ub, ut in body.calls() if ut is not t and any(
+                Q.value_source(body, du, a) is t for a in ut['a'] if 'cp' in a or 'mv' in a)]
+            filt = [(ub, ut) for ub, ut in users if Q.callee_is(ut, ['core::option::Option::<T>::filter'])]
+            cx.site('%s: checked_shl at %s -> %s' % (body.fn, body.loc(t), [pp.callee(ut).split('::')[-1] for _, ut in users] or 'no adapter'))
+            ok = bool(filt) and len(filt) == len(users)
+            shr = False
+            for ub, ut in filt:
+                clo = du.origin(ut['a'][1])
+                cb = F.bodies.get(clo['rv'].get('def')) if clo['k'] == 'agg' else None
+                if cb is not None:
+                    kinds = {s2['rv']['op'] for _, _, s2 in cb.stmts() if s2['k'] == 'assign' and s2['rv']['k'] == 'binop'}
+                    # the filter compares the shifted-back result with the operand and tests the sign
+                    if 'Shr' in kinds and ('Eq' in kinds or 'Ne' in kinds) and (kinds & {'Ge', 'Lt', 'Gt', 'Le'}):
+                        shr = True
+            if not (ok and shr):
+                cx.violation(body.fn, 'shl-unfiltered', 'the result of i64::checked_shl is used without the overflow filter (result >= 0 and '
+                             'result >> n == operand): checked_shl only rejects counts >= 64, so bits shifted into or beyond the sign bit '
+                             '(`1<<63`, `3<<62`) yield a wrapped value instead of an overflow error', loc=body.loc(t))
+    cx.require(n >= 1, 'no i64::checked_shl in yash_arith::eval (left shift implemented differently: review)')
